@@ -2,7 +2,7 @@
 
    case   = ( cap ( event ... ) )
    event  = ( req tag lang compiler ( arg ... ) ( (var val) ... ) ( (var val) ... ) cwd ( input ... )
-                  ( (role path optional) ... ) ppkey ( pre_ok ok cacheable size ) )
+                  ( (role path optional) ... ) ppkey ( pre_ok ok cacheable size ( role ... ) ) )
           | ( delete path ) | ( restart ) | ( idle )
    lang   = c | rust          ppkey = ( ) | ( id )
    arg    = ( h B ) | ( cfg B ) | ( ext path digest ) | ( lp B ) | ( out B ) | ( u B )
@@ -12,12 +12,14 @@
    content = tag of the request whose compile step produced the bytes.
 
    The key function used here is a length-prefixed serialisation of the fingerprint (every symbol
-   shifted by 256 so that no '/' or '.' occurs in a key); the compile oracle reads the quadruple
-   carried by the request itself. *)
+   shifted by 256 so that no '/' or '.' occurs in a key); the compile oracle reads the row carried by the
+   request itself (the last component = the roles the compile step writes). *)
 From Coq Require Import List NArith Bool.
 From Coq Require String.
 Import String.StringSyntax.
-From Sccache Require Import Base.Sx Model.Lru Model.HitModel.
+From Sccache Require Import Base.Sx.
+From Sccache Require Import Model.Lru.
+From Sccache Require Import Model.HitModel.
 Import ListNotations.
 Local Open Scope N_scope.
 Local Open Scope string_scope.
@@ -53,11 +55,11 @@ Definition dec_output (x : sx) : output :=
   | _ => {| o_role := []; o_path := []; o_optional := true |}
   end.
 
-Record oracle_row := { or_pre_ok : bool; or_ok : bool; or_cacheable : bool; or_size : N }.
+Record oracle_row := { or_pre_ok : bool; or_ok : bool; or_cacheable : bool; or_size : N; or_written : list bytes }.
 
 Definition dec_req (l : list sx) : option (request * oracle_row) :=
   match l with
-  | [tag; lg; comp; SL args; SL env; SL deps; cwd; SL inputs; SL outs; SL pk; SL [p; o; c; sz]] =>
+  | [tag; lg; comp; SL args; SL env; SL deps; cwd; SL inputs; SL outs; SL pk; SL [p; o; c; sz; SL wr]] =>
       Some ({| rq_tag := get_N tag;
                rq_lang := if is_sym "rust" lg then LangRust else LangC;
                rq_compiler := get_N comp;
@@ -68,7 +70,8 @@ Definition dec_req (l : list sx) : option (request * oracle_row) :=
                rq_inputs := map get_N inputs;
                rq_outputs := map dec_output outs;
                rq_ppkey := match pk with [i] => Some (get_B i) | _ => None end |},
-            {| or_pre_ok := get_bool p; or_ok := get_bool o; or_cacheable := get_bool c; or_size := get_N sz |})
+            {| or_pre_ok := get_bool p; or_ok := get_bool o; or_cacheable := get_bool c; or_size := get_N sz;
+               or_written := map get_B wr |})
   | _ => None
   end.
 
@@ -98,12 +101,12 @@ Fixpoint nlookup {V} (n : N) (l : list (N * V)) : option V :=
   | (m, v) :: r => if n =? m then Some v else nlookup n r
   end.
 
-(* the compile step of request r writes, for every role of the request, bytes identified by r's tag *)
+(* the compile step of request r writes, for every role listed in its row, bytes identified by r's tag *)
 Definition oracle (tbl : list (N * oracle_row)) (r : request) (_ : N) : cresult :=
   match nlookup (rq_tag r) tbl with
   | Some o =>
       {| cr_pre_ok := or_pre_ok o; cr_ok := or_ok o; cr_cacheable := or_cacheable o;
-         cr_outs := if or_ok o then map (fun x => (o_role x, rq_tag r)) (rq_outputs r) else [];
+         cr_outs := map (fun x => (x, rq_tag r)) (or_written o);
          cr_size := or_size o |}
   | None => {| cr_pre_ok := false; cr_ok := false; cr_cacheable := false; cr_outs := []; cr_size := 0 |}
   end.
